@@ -328,7 +328,8 @@ batch_found:
 	NOTL    CX
 	MOVL    CX, AX
 	SHRL    $16, CX
-	ORL     CX, AX                      // AX = 16-bit position mask
+	ORL     CX, AX
+	ANDL    $0xFFFF, AX                 // AX = 16-bit position mask (bits 16-31 repeat the high lane)
 	// Spill Y6 for bucket extraction
 	VMOVDQU Y6, (SP)
 
